@@ -82,6 +82,12 @@ def step (st : St) (args : List String) : St × String :=
   | ["reset"] =>
     (match st.dec.reset st.src with
      | (d, .ok rest) => fin d rest "ok"
+     | (d, .err (.dictNotProvided i)) =>
+       -- the real reader has consumed the frame header when `reset` reports the missing dictionary (the state is
+       -- initialised, only the dictionary is not installed): the documented recovery add_dict + force_dict continues from there
+       (match readFrameHeader st.src with
+        | .ok (_, _, rest) => fin d rest (showOut (.err (.dictNotProvided i) : Out Unit) fun _ => "")
+        | .error _ => fin d st.src (showOut (.err (.dictNotProvided i) : Out Unit) fun _ => ""))
      | (d, o) => fin d st.src (showOut o fun _ => ""))
   | ["blocks", s] =>
     (match parseStrategy s with
